@@ -359,6 +359,8 @@ func checkRetryPop(p *Prog, r *Roles, res *Result) {
 			continue
 		}
 		ex := extractsOf(ow)
+		construct2 := funcName(f) + ": head not popped after a failed repair write"
+		bad2, nErrEdges := false, 0
 		// edge: rev == 0 true, then err != nil true
 		bad := false
 		for _, b := range f.Blocks {
@@ -378,7 +380,7 @@ func checkRetryPop(p *Prog, r *Roles, res *Result) {
 				if !isErrNonNil {
 					continue
 				}
-				// must be under rev == 0
+				// under rev == 0 the key could not be read; otherwise the repair write itself failed
 				under := false
 				for _, df := range dominatingFacts(b) {
 					if df.X != nil && resolve(df.X) == ex[0] && isZeroConst(df.Y) && ((df.Op == token.EQL && df.Want) || (df.Op == token.NEQ && !df.Want)) {
@@ -386,6 +388,19 @@ func checkRetryPop(p *Prog, r *Roles, res *Result) {
 					}
 				}
 				if !under {
+					nErrEdges++
+					ins, path := searchFrom(b.Succs[s], 0, searchOpts{bad: func(i ssa.Instruction) bool {
+						for _, pc := range pops {
+							if i == pc.(ssa.Instruction) {
+								return true
+							}
+						}
+						return false
+					}})
+					if ins != nil {
+						bad2 = true
+						res.bad("C09-R3", construct2, p.pos(ins.Pos()), "the queued unknown-outcome write is dropped although its repair write failed (possibly without landing): if the original write was applied it is never surfaced as an event: "+blockPath(p, path))
+					}
 					continue
 				}
 				ins, path := searchFrom(b.Succs[s], 0, searchOpts{bad: func(i ssa.Instruction) bool {
@@ -404,6 +419,13 @@ func checkRetryPop(p *Prog, r *Roles, res *Result) {
 		}
 		if !bad {
 			res.ok("C09-R3", construct, p.pos(pops[0].Pos()), "on the path rev == 0 && err != nil the pop is not reachable (the entry stays queued)")
+		}
+		switch {
+		case bad2:
+		case nErrEdges == 0:
+			res.bad("C09-R3", construct2, p.pos(pops[0].Pos()), "the error of the repair write is never tested before the head entry is popped: a repair write that failed or has an unknown outcome makes the original write be forgotten")
+		default:
+			res.ok("C09-R3", construct2, p.pos(pops[0].Pos()), "on every path where the repair write's error is non-nil the pop is not reachable (the entry stays queued and is examined again)")
 		}
 	}
 }
